@@ -149,24 +149,40 @@ def mc(ctx, st, q, invariants, properties, defects):
         if defects == 'AllDefects':
             defects = 'TwoDefects'
     else:
+        # measured: 55 817 distinct / 1 404 811 generated states without defective submissions; every defect kind adds one
+        # self-loop per entry and position to each state, so the exhaustive run keeps two kinds (all six are enumerated
+        # against bounded prefixes by the GEN-all table instead)
         kw = dict(Tab='TabU6', Ent=6, Cap=3, PerSender=2, MaxLast=2, MaxH=2, MaxNow=2, MaxBlk=2, LevelFee='TRUE', TierAt=2)
+        if defects == 'AllDefects':
+            defects = 'TwoDefects'
     ctx.write_cfg(st, 'mc.cfg', cfg_text(view='view', invariants=invariants, properties=properties, Defects=defects,
                                          MaxRm=1, EmitOn='FALSE', **kw))
-    r = ctx.tlc_mc('Mempool_MC', 'mc.cfg', workers=4, timeout=7200, stage=st, coverage=not q)
-    # Reorg (node-rig generation only) and GetTxList (no state change; C23OK quantifies over all requests) are switched off here
-    zeros = [z for z in (r.get('zero_actions') or []) if not any(n in z for n in ('<Reorg ', '<GetTxList '))]
+    r = ctx.tlc_mc('Mempool_MC', 'mc.cfg', workers=4, timeout=18000, stage=st, coverage=not q)
+    # TLC reports the disjuncts of Next by source position. Switched off on purpose in exhaustive runs: Reorg (node-rig
+    # generation only), GetTxList (no state change; C23OK quantifies over all requests), defective submissions when the
+    # property under check has none.
+    import re
+    src = open(os.path.join(st, 'Mempool.tla')).read().splitlines()
+    zeros = []
+    for z in (r.get('zero_actions') or []):
+        m = re.search(r'\((\d+) \d+ \d+ \d+\)', z)
+        text = src[int(m.group(1)) - 1] if m and int(m.group(1)) <= len(src) else z
+        if ': Reorg(b)' in text or 'GetTxList(' in text or ('DefectsOf' in text and defects == 'NoDefects'):
+            continue
+        zeros.append(text.strip())
     if not q and zeros:
-        raise vlib.Broken('vacuous model-checking run, actions never taken: %s' % zeros)
+        raise vlib.Broken('vacuous model-checking run, actions never taken: %s' % sorted(set(zeros)))
     return r
 
 
 def concurrent_leg(ctx, b, q):
     """C21 'schedules': recorded concurrent runs validated by Mempool_Trace (invariants at every linearised step)."""
     import json
-    confs = [(4, 2, 3), (2, 1, 1)] if q else [(4, 2, 3), (2, 1, 1), (3, 3, 2), (5, 2, 4)]
+    # every TLC call waits for a machine-wide slot: the quick tier keeps their number small
+    confs = [(3, 2, 2)] if q else [(4, 2, 3), (2, 1, 1), (3, 3, 2), (5, 2, 4)]
     last_ok = None
     for i, (cap, per, last) in enumerate(confs):
-        opts = dict(n=2 if q else 6, workers=6, ops=30 if q else 60, phases=3, cap=cap, persender=per, maxlast=last)
+        opts = dict(n=4 if q else 6, workers=6, ops=30 if q else 60, phases=3, cap=cap, persender=per, maxlast=last)
         tp, s = ctx.record(b, 'concurrent', opts=opts, timeout=3600, name='conc-%d.ndjson' % i)
         r = ctx.tlc_trace('Mempool_Trace', 'Mempool_Trace.cfg', tp, timeout=3600)
         ctx.states += r['states']
@@ -278,8 +294,8 @@ def run_c21(ctx, q, b, st):
                 'push failed, reorganisations under load when the pool handled the two notices in inverted order; distinct by '
                 'abstract action sequence')
     mc(ctx, st, q, C21_INV, ('BlockGone',), 'NoDefects')
-    n = 150 if q else 700
-    confs = [(3, 2, 2), (2, 1, 1), (2, 2, 3)] if q else [(3, 2, 2), (2, 1, 1), (2, 2, 3), (3, 1, 2), (4, 2, 2), (1, 1, 1)]
+    n = 200 if q else 700
+    confs = [(3, 2, 2), (2, 1, 1)] if q else [(3, 2, 2), (2, 1, 1), (2, 2, 3), (3, 1, 2), (4, 2, 2), (1, 1, 1)]
     for i, (cap, per, last) in enumerate(confs):
         name = 'gen_c21_%d.cfg' % i
         ctx.write_cfg(st, name, cfg_text(Cap=cap, PerSender=per, MaxLast=last))
@@ -313,8 +329,8 @@ def run_c22(ctx, q, b, st):
         total += len(allb)
         preplay(ctx, b, allb, dict(rig='bare'), label='c22-all-%d' % i)
     ctx.extra['exhaustive_small_config'] = dict(cfg='all_c22_*.cfg (Mode=admit)', behaviours=total)
-    n = 120 if q else 700
-    for i, (cap, per, lvl, tier) in enumerate([(3, 2, 'TRUE', 2), (2, 1, 'FALSE', 2)] if q else
+    n = 200 if q else 700
+    for i, (cap, per, lvl, tier) in enumerate([(3, 2, 'TRUE', 2)] if q else
                                               [(3, 2, 'TRUE', 2), (2, 1, 'FALSE', 2), (3, 1, 'TRUE', 1), (4, 2, 'TRUE', 3)]):
         name = 'gen_c22_%d.cfg' % i
         ctx.write_cfg(st, name, cfg_text(Cap=cap, PerSender=per, LevelFee=lvl, TierAt=tier, Defects='AllDefects', MaxRm=1, SubW=4))
@@ -336,8 +352,8 @@ def run_c23(ctx, q, b, st):
     allb = ctx.tlc_genall('Mempool_All', 'all_c23.cfg', stage=st, timeout=7200)
     preplay(ctx, b, allb, dict(rig='bare'), label='c23-all')
     ctx.extra['exhaustive_small_config'] = dict(cfg='all_c23.cfg (Mode=list)', behaviours=len(allb))
-    n = 150 if q else 700
-    for i, (cap, per) in enumerate([(4, 3), (3, 2)] if q else [(4, 3), (3, 2), (5, 4), (2, 2)]):
+    n = 250 if q else 700
+    for i, (cap, per) in enumerate([(4, 3)] if q else [(4, 3), (3, 2), (5, 4), (2, 2)]):
         name = 'gen_c23_%d.cfg' % i
         ctx.write_cfg(st, name, cfg_text(Cap=cap, PerSender=per, QueryOn='TRUE', SubW=5, MaxRm=1, MaxH=3, MaxNow=2))
         bs = ctx.tlc_sim('Mempool_MC', name, num=n, depth=24 if q else 30, stage=st, keep_init=True, seed=ctx.seed * 10 + i, timeout=3600)
